@@ -19,7 +19,8 @@ import (
 //	(2) a direct implementation: every `return true` is dominated, for each operand, by a range loop over that operand's map in
 //	    which every path through the body to the next iteration passes the == outcome of a comparison of the ranged counter
 //	    with the other operand's value under the ranged key — or by such a loop over one operand together with the ==
-//	    outcome of len(own map) == len(other map).
+//	    outcome of len(own map) == len(other map). The second loop of a two-pass comparison may skip entries the other
+//	    operand holds (the dominating full loop compared them) and compare the rest with the absent value 0.
 func c16EqualExact(p *Program, r *Report) {
 	vv := p.Named("internal/cluster", "VersionVector")
 	if vv == nil {
@@ -39,8 +40,9 @@ func c16EqualExact(p *Program, r *Report) {
 		r.Unresolved("the constant Compare returns for equal vectors")
 		return
 	}
-	g := p.ig(fn)
+	g := p.igx(fn)
 	operandOf := func(v ssa.Value) int {
+		v = g.res(v)
 		_, base := fieldLoad(v)
 		if base == nil {
 			return -1
@@ -57,6 +59,13 @@ func c16EqualExact(p *Program, r *Report) {
 	}
 	// loops that check every entry of operand k against the other operand
 	checking := map[int]map[int]bool{0: {}, 1: {}}
+	type weakLoop struct {
+		n, k int
+		nx   *ssa.Next
+		body []int
+		eq   map[edge]bool
+	}
+	var weak []weakLoop
 	for i, in := range g.Nodes {
 		nx, ok := in.(*ssa.Next)
 		if !ok {
@@ -99,11 +108,53 @@ func c16EqualExact(p *Program, r *Report) {
 				}
 			}
 		}
-		if len(body) == 0 || len(eqEdges) == 0 {
+		if len(body) == 0 {
 			continue
 		}
-		if !g.Reach(body, nil, eqEdges)[i] {
+		if len(eqEdges) > 0 && !g.Reach(body, nil, eqEdges)[i] {
 			checking[k][i] = true
+			continue
+		}
+		weak = append(weak, weakLoop{i, k, nx, body, eqEdges})
+	}
+	// the second loop of a two-pass comparison only has to look at what the first did not: an entry found in the other operand was
+	// compared by the (dominating) full loop over that operand, an entry the other operand lacks must equal the absent value 0
+	for _, wl := range weak {
+		full := checking[1-wl.k]
+		if len(full) == 0 || !g.DominatedByNodes(wl.n, full) {
+			continue
+		}
+		pass := map[edge]bool{}
+		for e := range wl.eq {
+			pass[e] = true
+		}
+		for _, ifi := range g.ifs() {
+			for _, oc := range []bool{true, false} {
+				f, ok := condFact(ifi.Cond, oc)
+				if !ok {
+					continue
+				}
+				e := g.branchEdge(ifi, oc)
+				// found-edge of the lookup of the ranged key in the other operand
+				if f.Bool && f.Op == token.NEQ {
+					if ex, isE := f.X.(*ssa.Extract); isE && ex.Index == 1 {
+						if lk, isL := ex.Tuple.(*ssa.Lookup); isL && operandOf(lk.X) == 1-wl.k {
+							if kx, isK := strip(lk.Index).(*ssa.Extract); isK && kx.Tuple == ssa.Value(wl.nx) && kx.Index == 1 {
+								pass[e] = true
+							}
+						}
+					}
+				}
+				// ranged counter == 0
+				if !f.Bool && !f.IsNil && f.Y == nil && f.Op == token.EQL && f.C == 0 {
+					if vx, isV := strip(f.X).(*ssa.Extract); isV && vx.Tuple == ssa.Value(wl.nx) && vx.Index == 2 {
+						pass[e] = true
+					}
+				}
+			}
+		}
+		if !g.Reach(wl.body, nil, pass)[wl.n] {
+			checking[wl.k][wl.n] = true
 		}
 	}
 	lenEq := map[edge]bool{}
